@@ -61,6 +61,12 @@ def skipNoops : Bytes → Bytes
 
 def maxFree : Nat := 200000
 
+/-- the markers that may name an element type: every value marker (not N, not a closing or
+header character) -/
+def isTypeMarker (t : UInt8) : Bool :=
+  t == 0x5a || t == 0x54 || t == 0x46 || t == 0x69 || t == 0x55 || t == 0x49 || t == 0x6c || t == 0x4c ||
+  t == 0x64 || t == 0x44 || t == 0x43 || t == 0x48 || t == 0x53 || t == 0x5b || t == 0x7b
+
 mutual
 /-- the payload of a value whose marker `m` is already known -/
 def payload : Nat → UInt8 → Bytes → Except DErr (Val × Bytes)
@@ -112,6 +118,7 @@ def array : Nat → Bytes → Except DErr (Val × Bytes)
       | [] => .error .truncated
       | t :: rest1 =>
         if t == 0x4e then .error .undetermined else
+        if !isTypeMarker t then .error .rejected else
         match rest1 with
         | [] => .error .truncated
         | h :: rest2 =>
@@ -191,6 +198,7 @@ def object : Nat → Bytes → Except DErr (Val × Bytes)
       | [] => .error .truncated
       | t :: rest1 =>
         if t == 0x4e then .error .undetermined else
+        if !isTypeMarker t then .error .rejected else
         match rest1 with
         | [] => .error .truncated
         | h :: rest2 =>
